@@ -200,11 +200,22 @@ def workdir():
         shutil.rmtree(d, ignore_errors=True)
         (d / "proj" / "sub").mkdir(parents=True)
         (d / "elsewhere").mkdir()
+        # a small source tree for the options that select files (used by the `select` cases)
+        for rel in ("src/a.f90", "src/b.f90", "src/sub/b.f90", "src/sub/c.f90", "src/test_x/t.f90", "lib/b.f90"):
+            (d / "proj" / rel).parent.mkdir(parents=True, exist_ok=True)
+            (d / "proj" / rel).write_text(f"module m_{rel.replace('/', '_').replace('.', '_')}\nend module\n")
+        # ... and files of the same names below the other working directories
+        for base in (d, d / "elsewhere"):
+            (base / "src").mkdir(exist_ok=True)
+            (base / "src" / "b.f90").write_text("! a decoy\n")
         _DIRS["d"] = d
     return _DIRS["d"]
 
 
-def evaluate(fmt, options, cli=None, cwd="proj", config_extra=None):
+SELECTED = {}
+
+
+def evaluate(fmt, options, cli=None, cwd="proj", config_extra=None, select=False):
     """Run the real settings pipeline: ford.initialize() = argparse on a real argv + load_settings + parse_arguments.
     fmt in md | toml | config.  Returns (dict of settings | None, error, log)."""
     import sys
@@ -269,6 +280,10 @@ def evaluate(fmt, options, cli=None, cwd="proj", config_extra=None):
         with contextlib.redirect_stdout(buf), contextlib.redirect_stderr(buf):
             try:
                 data, docs = ford.initialize()
+                if select:
+                    import ford.fortran_project as fp
+
+                    SELECTED["files"] = sorted(os.path.relpath(p, proj) for p in fp.find_all_files(data))
             except (Exception, SystemExit) as e:  # noqa
                 return None, f"{type(e).__name__}: {e}", buf.getvalue()
     finally:
@@ -411,6 +426,29 @@ def run_case(st: Stats, case):
                 st.violation("derived-setting-stale", "cli/" + layer, dict(feats, field="exclude_dir"), inp, dict(output_dir=got.get("output_dir"), exclude_dir=got.get("exclude_dir")),
                              "exclude_dir contains the output directory in force")
             st.stratum("cli/" + layer, 0 if ok else 1)
+    elif kind == "select":
+        # options that select source files: the selection is the same from every working directory and in every format
+        _, optname, value, want = case
+        st.nontrivial.add(core.digest(case))
+        obs = {}
+        for fmt in ("md", "toml"):
+            for cwd in ("proj", "parent", "elsewhere"):
+                got, err, log = evaluate(fmt, {"src_dir": ["src", "lib"], optname: value}, cwd=cwd, select=True)
+                st.evaluations += 1
+                st.transitions += 1
+                obs[f"{fmt}/{cwd}"] = err or list(SELECTED.get("files", []))
+        feats = dict(space="select", option=optname, value=str(value))
+        inp = dict(option=optname, value=value)
+        bad = 0
+        vals = list(obs.values())
+        if any(v != vals[0] for v in vals):
+            bad = 1
+            k = next(k for k, v in obs.items() if v != vals[0])
+            st.violation("selection-depends-on-working-directory-or-format", "select/" + optname, dict(feats, differs=k), inp, {"md/proj": vals[0], k: obs[k]}, "the same files whatever the working directory")
+        elif want is not None and vals[0] != sorted(want):
+            bad = 1
+            st.violation("value-differs-from-reference", "select/" + optname, dict(feats, field=optname, fmt="md"), inp, vals[0], sorted(want))
+        st.stratum("select/" + optname, bad)
     elif kind == "unknown":
         _, fmt, key = case
         got, err, log = evaluate(fmt, {key: "some value", "project": "named"})
@@ -502,6 +540,12 @@ def gen_cases(tier):
                 yield ("cli", name, fmt, {"filep": "http://file.example/p"}, {"clip": "http://cli.example/p", "clip2": "../local/doc"}, {"cfgp": "http://config.example/p"})
             else:
                 yield ("cli", name, fmt, ["from_file"], ["from_cli", "cli2"], ["from_config"])
+    ALL = ["src/a.f90", "src/b.f90", "src/sub/b.f90", "src/sub/c.f90", "src/test_x/t.f90", "lib/b.f90"]
+    for optname, value, gone in (("exclude", ["src/b.f90"], ["src/b.f90"]), ("exclude", ["src/sub/c.f90"], ["src/sub/c.f90"]), ("exclude", ["**/b.f90"], ["src/b.f90", "src/sub/b.f90", "lib/b.f90"]),
+                                 ("exclude", ["lib/b.f90"], ["lib/b.f90"]), ("exclude", ["**/test_*/*.f90"], ["src/test_x/t.f90"]),
+                                 ("exclude_dir", ["src/sub"], ["src/sub/b.f90", "src/sub/c.f90"]), ("exclude_dir", ["**/test*"], ["src/test_x/t.f90"]), ("exclude_dir", ["lib"], ["lib/b.f90"]),
+                                 ("extensions", ["f90"], [])):
+        yield ("select", optname, value, [f for f in ALL if f not in gone])
     for fmt in ("md", "toml", "config"):
         for key in ("no_such_option", "projekt", "output-dir", "relative"):  # the last one is an attribute of the settings object, not an option
             yield ("unknown", fmt, key)
